@@ -134,6 +134,75 @@ def _run_one(v: Dict[str, Any], prop: str, repo: str) -> Dict[str, Any]:
     return rec
 
 
+# ------------------------------------------------------------------ whole-tree neutral rewrites
+import ast as _ast
+
+
+class _Renamer(_ast.NodeTransformer):
+    def __init__(self, mode: str):
+        self.mode = mode
+
+    def visit_FunctionDef(self, fn):
+        params = {a.arg for a in fn.args.args + fn.args.posonlyargs + fn.args.kwonlyargs}
+        stored = {n.id for n in _ast.walk(fn) if isinstance(n, _ast.Name) and isinstance(n.ctx, _ast.Store)}
+        glob = {x for n in _ast.walk(fn) if isinstance(n, (_ast.Global, _ast.Nonlocal)) for x in n.names}
+        is_njit = any("njit" in _ast.unparse(d) for d in fn.decorator_list)
+        nested = [n for n in _ast.walk(fn) if isinstance(n, (_ast.FunctionDef, _ast.Lambda)) and n is not fn]
+        if self.mode == "rename":
+            targets = (stored - params - glob) if not nested else set()
+        else:
+            targets = (params - {"self", "cls"}) if is_njit else set()
+        m = {t: t + "_rn" for t in targets if not t.startswith("__")}
+        for n in _ast.walk(fn):
+            if isinstance(n, _ast.Name) and n.id in m:
+                n.id = m[n.id]
+            if self.mode == "params" and isinstance(n, _ast.arg) and n.arg in m:
+                n.arg = m[n.arg]
+        return fn
+
+
+def neutral_rewrite(src: str, mode: str) -> str:
+    """roundtrip: re-print with ast.unparse; rename: every local renamed; params: every parameter of every jitted function renamed."""
+    tree = _ast.parse(src)
+    if mode in ("rename", "params"):
+        tree = _Renamer(mode).visit(tree)
+    return _ast.unparse(tree) + "\n"
+
+
+def run_neutral(prop: str, repo: str, modes=("roundtrip", "rename", "params")) -> List[Dict[str, Any]]:
+    out = []
+    for mode in modes:
+        tmp = tempfile.mkdtemp(prefix=f"nucsverif-neutral-{mode}-")
+        rec: Dict[str, Any] = {"id": f"whole-tree:{mode}", "kind": "neutral", "property": prop, "file": "nucs/**", "what": f"whole tree rewritten ({mode})"}
+        try:
+            for d in ("nucs", "tests"):
+                if os.path.isdir(os.path.join(repo, d)):
+                    shutil.copytree(os.path.join(repo, d), os.path.join(tmp, d), ignore=shutil.ignore_patterns("__pycache__", "*.nbi", "*.nbc"))
+            for dp, _, fs in os.walk(os.path.join(tmp, "nucs")):
+                for f in fs:
+                    if f.endswith(".py"):
+                        p = os.path.join(dp, f)
+                        with open(p, encoding="utf-8") as fh:
+                            src = fh.read()
+                        with open(p, "w", encoding="utf-8") as fh:
+                            fh.write(neutral_rewrite(src, mode))
+            env = dict(os.environ)
+            env["NUCSVERIF_OUT"] = os.path.join(tmp, "out")
+            env["PYTHONPATH"] = VERIF
+            p_ = subprocess.run([sys.executable, "-m", "nucsverif", "check", prop, "--tier", "quick", "--repo", tmp], cwd=VERIF, env=env, capture_output=True, text=True, timeout=900)
+            rec["exit"] = p_.returncode
+            rec["verdict"] = "silent" if p_.returncode == 0 else ("FALSE-ALARM" if p_.returncode == 1 else "analysis-error")
+            if p_.returncode != 0:
+                rec["note"] = (p_.stdout.strip().splitlines() or [""])[-1][:300]
+        except Exception as e:  # noqa
+            rec["verdict"] = "analysis-error"
+            rec["note"] = repr(e)[:200]
+        finally:
+            shutil.rmtree(tmp, ignore_errors=True)
+        out.append(rec)
+    return out
+
+
 GOOD = {"fired", "silent", "stale"}
 
 
@@ -152,6 +221,7 @@ def run_matrix(props: Optional[List[str]], repo: str, ids: Optional[List[str]] =
 def run_selftest(prop: str, mod: Any, repo: str) -> int:
     """Called by the CLI after a clean thorough run of `prop`: evaluates the property's variants."""
     res = run_matrix([prop], repo)
+    res.extend(run_neutral(prop, repo))
     bad = [r for r in res if r["verdict"] not in GOOD]
     stale = [r for r in res if r["verdict"] == "stale"]
     n_break = sum(1 for r in res if r["kind"] == "break" and r["verdict"] == "fired")
